@@ -20,6 +20,7 @@ import (
 	"encoding/json"
 	"fmt"
 	"io"
+	"math"
 	"os"
 	"os/exec"
 	"path/filepath"
@@ -50,7 +51,8 @@ type result struct {
 	Out    string `json:"out"`  // ok | err | panic | abort | hang
 	Msg    string `json:"msg"`  // panic message / error text
 	Term   string `json:"term"` // Coq term of the decoded value (out == ok)
-	Tag    string `json:"tag"`  // sub-class of the decoded value, part of the violation kind
+	Tag    string `json:"tag"`  // sub-class of the decoded value, part of the violation kind (before .use)
+	Sub    string `json:"sub"`  // sub-class of the decoded value, part of the violation kind (after .use.)
 	Use    string `json:"use"`  // ok | panic
 	UseAt  string `json:"useAt"`
 	UseMsg string `json:"useMsg"`
@@ -224,6 +226,12 @@ func regressionInputs() []input {
 		}
 		return out
 	}
+	f64 := func(x float64) []byte {
+		var t [8]byte
+		binary.LittleEndian.PutUint64(t[:], math.Float64bits(x))
+		return t[:]
+	}
+	nanTriangle := cat(f64(1), f64(0), f64(0), f64(0), f64(math.NaN()), f64(0), f64(0), f64(0), f64(1))
 	// a compressed polygon with one loop of three level-0 vertices and one off-centre entry whose index is idx
 	offc := func(idx uint64) []byte {
 		return cat([]byte{4, 0}, uv(1), uv(3), uv(3*6+0), uv(0), uv(0), uv(1), uv(idx), make([]byte, 24), uv(0), uv(0))
@@ -242,6 +250,13 @@ func regressionInputs() []input {
 		{cg.KPolyline, []byte{1, 1, 0, 0, 0, 1, 2, 3}, "regress:1468f2c polyline truncated", false},
 		{cg.KPolyline, []byte{}, "regress:1468f2c polyline empty input", false},
 		{cg.KLoop, cat([]byte{1, 0, 0, 0, 0, 1, 0, 0, 0, 0, 1}, make([]byte, 32)), "regress:3565354 loop with 0 vertices", false},
+		{cg.KLoop, cat([]byte{1, 3, 0, 0, 0}, nanTriangle, []byte{0, 0, 0, 0, 0, 1}, make([]byte, 32)), "regress:4fc5f5f loop with a NaN coordinate", false},
+		{cg.KPolyline, cat([]byte{1, 3, 0, 0, 0}, nanTriangle), "regress:4fc5f5f polyline with a NaN coordinate", false},
+		{cg.KPolygon, cat([]byte{1, 1, 0, 1, 0, 0, 0}, []byte{1, 3, 0, 0, 0}, nanTriangle, []byte{0, 0, 0, 0, 0, 1}, make([]byte, 32), []byte{1}, make([]byte, 32)), "regress:4fc5f5f polygon with a NaN coordinate", false},
+		{cg.KPolygon, cat([]byte{4, 0}, uv(1), uv(3), uv(3*6+0), uv(0), uv(0), uv(1), uv(1), f64(math.NaN()), f64(0), f64(1), uv(0), uv(0)), "regress:4fc5f5f compressed polygon, off-centre NaN", false},
+		{cg.KCell, []byte{0x48, 0xbc, 0xdc, 0x5c, 0x22, 0xc0, 0x5b, 0xf4}, "regress:8beed88 cell id with face 7", false},
+		{cg.KCellUnion, cat([]byte{1, 1, 0, 0, 0, 0, 0, 0, 0}, []byte{0x48, 0xbc, 0xdc, 0x5c, 0x22, 0xc0, 0x5b, 0xf4}), "regress:847439f cell union with an invalid id", false},
+		{cg.KCellUnion, cat([]byte{1, 2, 0, 0, 0, 0, 0, 0, 0}, []byte{0, 0, 0, 0, 0, 0, 0, 0x10}, make([]byte, 8)), "regress:847439f cell union with id 0", false},
 		{cg.KPolygon, cat([]byte{1, 1, 0, 1, 0, 0, 0}, []byte{1, 0, 0, 0, 0, 1, 0, 0, 0, 0, 1}, make([]byte, 32), []byte{1}, make([]byte, 32)), "polygon with one 0-vertex loop", false},
 		{cg.KPolygon, cat([]byte{4, 30}, uv(1), uv(0), uv(0), uv(3), uv(5)), "compressed polygon, 0-vertex loop", false},
 		{cg.KPolygon, cat([]byte{4, 30}, uv(1), uv(0), uv(0), uv(2), uv(5), []byte{1}, make([]byte, 32)), "compressed polygon, 0-vertex loop with bound", false},
@@ -319,6 +334,11 @@ func buildInputs(c *vkit.Collector, rng *vkit.Rng, budget int) []input {
 				}
 				c.Class("count-mutation")
 				add(k, mu.Data, "count "+mu.Label, false)
+			}
+			// vertex coordinates replaced by NaN / infinities (refused since 4fc5f5f)
+			for _, mu := range cg.CoordMutations(k, b, rng.Intn) {
+				add(k, mu.Data, mu.Label, false)
+				c.Class("nonfinite-coordinate")
 			}
 			// version bytes
 			if r == 0 && len(b) > 0 {
@@ -409,7 +429,7 @@ func run(c *vkit.Collector, rng *vkit.Rng, budget int) {
 			if r.Use != "ok" {
 				rep["query"] = r.UseAt
 				rep["detail"] = tail(r.UseMsg, 300)
-				c.Violate(kn+r.Tag+".use."+r.UseAt, "a decoded value panics when queried: "+tail(r.UseMsg, 120), rep)
+				c.Violate(kn+r.Tag+".use."+r.Sub+r.UseAt, "a decoded value panics when queried: "+tail(r.UseMsg, 120), rep)
 			}
 		case "err":
 			c.Check(kn+" err "+inp.Label, vkit.App("Z.eqb", vkit.App("result_class", vkit.App(fn, bt)), "1%Z"))
